@@ -96,7 +96,13 @@ class AxolotlManager(object):
         :rtype:
         """
         logger.debug("set_prekeys_as_sent(prekeyIds=[%d prekeyIds])" % len(prekeyIds))
-        self._store.preKeyStore.setAsSent([prekey.getId() for prekey in prekeyIds])
+        # the confirmation is for the keys that were uploaded: an id that has meanwhile been given to a newly generated key
+        # (the uploaded one was consumed, numbering went on from the highest id left) is not confirmed by it
+        self._store.preKeyStore.setAsSent([
+            prekey.getId() for prekey in prekeyIds
+            if self._store.containsPreKey(prekey.getId())
+            and self._store.loadPreKey(prekey.getId()).serialize() == prekey.serialize()
+        ])
 
     def generate_signed_prekey(self):
         logger.debug("generate_signed_prekey")
